@@ -122,7 +122,7 @@ def build_exe(src, out_name, repo=REPO, variant='plain', extra_flags=(), extra_s
         return exe
     defs = DEFS + (['-DZCHUNK_OPENSSL'] if openssl else [])
     run([CC, '-o', exe] + srcs + cflags + defs + inc_flags(repo, bdir) + list(extra_flags)
-        + (['-Wl,--wrap=read,--wrap=write,--wrap=lseek,--wrap=lseek64,--wrap=regexec,--wrap=regcomp'] if wrap else []) + [os.path.join(bdir, 'libzckv.a')] + LIBS + ['-lpthread'])
+        + (['-Wl,--wrap=read,--wrap=write,--wrap=lseek,--wrap=lseek64,--wrap=regexec,--wrap=regcomp,--wrap=regfree'] if wrap else []) + [os.path.join(bdir, 'libzckv.a')] + LIBS + ['-lpthread'])
     return exe
 
 def build_tools(repo=REPO, variant='plain'):
